@@ -780,8 +780,10 @@ pub fn random_op(r: &mut Rng) -> Op {
         let n = *r.pick(&[0usize, 1, 1, 1, 2, 3]);
         (0..n).map(|_| arg(r, pool, inval)).collect()
     }
-    const BADV: &[&str] = &["ab", "toolongvalue", "", "a-b", "f\u{f3}o", "a b", "abc\0"];
-    const BADK: &[&str] = &["c", "a1x", "", "\u{e9}a", "a-", "1-"];
+    // invalid arguments, including strings that are well-formed members of ANOTHER class (a key-shaped value, a
+    // singleton, a language-shaped tag): accepted by mistake they are re-read as that other class after to_string()
+    const BADV: &[&str] = &["ab", "toolongvalue", "", "a-b", "f\u{f3}o", "a b", "abc\0", "a0", "z9", "k0", "1a", "u", "t", "x", "en", "ca", "12"];
+    const BADK: &[&str] = &["c", "a1x", "", "\u{e9}a", "a-", "1-", "abc", "true", "0a0", "Latn", "u", "x", "00"];
     match r.below(34) {
         0 => Op::SetLanguage(arg(r, LANGS, &["abcd", "a", "toolonglang", "e1", ""])),
         1 => Op::ClearLanguage,
